@@ -88,11 +88,21 @@ func (e *c19NilErr) Error() string { return "verif: typed-nil error value" }
 // c19Subst replaces what the executed command hands back
 func c19Subst(cmd red.Cmder, kind string) error {
 	c, ok := cmd.(*red.Cmd)
-	if !ok {
-		return cmd.Err()
+	set := func(v any) error {
+		if !ok { // not a generic command (the call does not run a script here): a value cannot be substituted
+			return errC19NoSubst
+		}
+		c.SetErr(nil)
+		c.SetVal(v)
+		return nil
 	}
-	set := func(v any) error { c.SetErr(nil); c.SetVal(v); return nil }
-	fail := func(e error) error { c.SetVal(nil); c.SetErr(e); return e }
+	fail := func(e error) error {
+		if ok {
+			c.SetVal(nil)
+		}
+		cmd.SetErr(e)
+		return e
+	}
 	switch {
 	case kind == "nil":
 		return fail(red.Nil)
@@ -116,6 +126,7 @@ func c19Subst(cmd red.Cmder, kind string) error {
 type c19CtxKey struct{}
 
 var errC19Lost = errors.New("verif: connection lost after the command was executed")
+var errC19NoSubst = errors.New("verif: no value can be substituted in this command type")
 
 func (h *c19Hook) arm(pos int, run func(), lose bool) {
 	h.pos, h.count, h.fired, h.run, h.lose, h.lost, h.cmds = pos, 0, 0, run, lose, false, nil
@@ -167,7 +178,11 @@ func (h *c19Hook) ProcessHook(next red.ProcessHook) red.ProcessHook {
 		}
 		if h.subst != "" && !h.substDone && (err == nil || errors.Is(err, red.Nil)) {
 			h.substDone = true
-			err = c19Subst(cmd, h.subst)
+			if e := c19Subst(cmd, h.subst); e == errC19NoSubst {
+				h.cmds = append(h.cmds, "nosubst")
+			} else {
+				err = e
+			}
 		}
 		return err
 	}
